@@ -670,8 +670,9 @@ def check_normalize_body(ctx, res, config="all"):
             res.note("R1-normalize-body: BigUint::normalize truncates by a count that is not recognisably the number of high zero digits - not decided")
             res.ok("R1-normalize-body", b.path, {"undecided": "unrecognised idiom"}, nontrivial=False)
         errs = None
-    elif "truncate" not in names and "rposition" not in names:
-        res.note("R1-normalize-body: BigUint::normalize uses neither truncate(rposition+1) nor a pop-while-zero loop - its stripping of all high zeros is not decided")
+    elif "rposition" not in names:
+        # any other way of finding the new length (an index loop, a fold ...): not one of the three idioms the rule can judge
+        res.note("R1-normalize-body: BigUint::normalize uses neither truncate(rposition+1), a pop-while-zero loop nor truncate(len - count of high zeros) - its stripping of all high zeros is not decided")
         res.ok("R1-normalize-body", b.path, {"undecided": "unrecognised idiom"}, nontrivial=False)
         errs = None
     if errs is None:
